@@ -1,5 +1,5 @@
 (* C02 — gate fusion never changes what a gate list computes.
-   Property theorems only; proofs live in Proofs/Optimizer*.v; the models Model/Optimizer.v and Model/Sparse.v are
+   Property theorems only; proofs live in Proofs/Optimizer*.v and Proofs/Sparse*.v; the models Model/Optimizer.v and Model/Sparse.v are
    tied to circ_optimizer.py and backend.py by the exact correspondence runs of checks/c02.py.
 
    Vocabulary.  Scalars: any commutative ring (R, rO, rI, radd, rmul, rsub, ropp with a ring_theory).
@@ -8,9 +8,10 @@
    ([q] or [q,-1] with a 2x2 matrix, [q1,q2] distinct with a 4x4 matrix, indices in 0..n-1); wfn n = the same
    without the [q,-1] spelling (what the optimizer returns); den maps an item to the Base/State.v item it denotes,
    sem applies State.v items one after another, state_eq n compares states on n-qubit basis labels. *)
-From Coq Require Import List Bool Arith ZArith Ring.
+From Coq Require Import List Bool Arith ZArith NArith Ring.
 Require Import QG.Base.Res QG.Base.State QG.Model.Optimizer QG.Model.Sparse.
 Require Import QG.Proofs.OptimizerSem QG.Proofs.OptimizerL13 QG.Proofs.OptimizerL2 QG.Proofs.OptimizerL4 QG.Proofs.OptimizerMain.
+Require Import QG.Base.Mat QG.Proofs.SparseBits QG.Proofs.SparseJoin QG.Proofs.SparseApply QG.Proofs.SparseMain.
 Import ListNotations.
 
 (* ---- the optimizer half of the property, full strength (all rings, all n, all levels 0..4, all well-formed lists):
@@ -92,15 +93,13 @@ Theorem C02_process_snippet_sound :
 Proof. exact process_snippet_spec. Qed.
 Print Assumptions C02_process_snippet_sound.
 
-(* ---- the BinaryBackend half: statement only (NOT proved; tied by exact correspondence of the COO triples and the
-        tensordot oracle, see checks/c02.py and the registry note).  entry reads a matrix entry by its numeric index. *)
-Definition bit_of (x : N) : bool := negb (N.eqb x 0).
-Definition entry_mat (R : Type) (rO : R) (m : mat R) (r c : N) : R :=
-  match m with
-  | M2 _ a => a (bit_of r) (bit_of c)
-  | M4 _ g => g (bit_of (N.div r 2), bit_of (N.modulo r 2)) (bit_of (N.div c 2), bit_of (N.modulo c 2))
-  | MBad _ => rO
-  end.
+(* ---- the BinaryBackend half (Model/Sparse.v; proofs in Proofs/Sparse*.v; the model is tied to backend.py by the exact
+        correspondence of the COO triples, see checks/c02.py and the registry note).
+        entry_mat R rO m r c = m[r, c] reads a matrix entry by its numeric index: for a 2x2 matrix a it is
+        a (r <> 0) (c <> 0), for a 4x4 matrix g it is g (r / 2 <> 0, r mod 2 <> 0) (c / 2 <> 0, c mod 2 <> 0)
+        (Proofs/SparseApply.v).  Full strength: every commutative ring, every n, every non-empty well-formed list, one-qubit
+        items on any qubit, two-qubit items on any ordered pair of distinct qubits (adjacent or not): the model returns
+        normally and the returned state is sem items psi on all n-qubit basis labels. *)
 Definition C02_backend_full : Prop :=
   forall (R : Type) (rO rI : R) (radd rmul rsub : R -> R -> R) (ropp : R -> R)
          (Rth : ring_theory rO rI radd rmul rsub ropp eq)
@@ -110,6 +109,64 @@ Definition C02_backend_full : Prop :=
                 (entry_mat R rO) n items psi = Ok out /\
     state_eq R n out (sem R radd rmul (map (den R rO rI) items) psi).
 
+Theorem C02_bin_spec : C02_backend_full.
+Proof. intros R rO rI radd rmul rsub ropp Rth n items psi. exact (bin_spec R rO rI radd rmul rsub ropp Rth n items psi). Qed.
+Print Assumptions C02_bin_spec.
+
+(* bits_dup (create_sparse's k_str): the 2k-digit binary of i * (2^k + 1) is the k-digit binary of i written twice *)
+Theorem C02_bits_dup :
+  forall (k : nat) (i : N), 0 < k -> (i < 2 ^ N.of_nat k)%N ->
+  fmt_b (2 * k) (i * (2 ^ N.of_nat k + 1))%N = fmt_b k i ++ fmt_b k i.
+Proof. exact bits_dup. Qed.
+Print Assumptions C02_bits_dup.
+
+(* f"{x:0{w}b}" and int(s, 2) are mutually inverse between range(2^w) and the w-character bit strings (w >= 1) *)
+Theorem C02_fmt_b_val2 :
+  forall (w : nat), 0 < w ->
+  (forall x : N, (x < 2 ^ N.of_nat w)%N -> length (fmt_b w x) = w /\ val2 (fmt_b w x) = x) /\
+  (forall s : list bool, length s = w -> (val2 s < 2 ^ N.of_nat w)%N /\ fmt_b w (val2 s) = s).
+Proof. exact fmt_b_val2_inverse. Qed.
+Print Assumptions C02_fmt_b_val2.
+
+(* dense_is_apply / sparse_is_apply, one-qubit items: for every n and q < n the operator statevector builds for the qubit
+   list [q] (create_dense when n = 1, create_sparse otherwise) is built without an exception and acts as apply1 q *)
+Theorem C02_operator_is_apply1 :
+  forall (R : Type) (rO rI : R) (radd rmul rsub : R -> R -> R) (ropp : R -> R)
+         (Rth : ring_theory rO rI radd rmul rsub ropp eq) (n q : nat) (a : State.m2 R), q < n ->
+  exists op, item_operator n [Z.of_nat q] = Ok op /\
+    forall psi b, length b = n ->
+      coo_apply R rO radd rmul (snd op) (entry_mat R rO (M2 R a)) psi b = apply1 R radd rmul q a psi b.
+Proof. exact item_operator_apply1. Qed.
+Print Assumptions C02_operator_is_apply1.
+
+(* two-qubit items on any ordered pair of distinct qubits (create_dense when n = 2, create_sparse otherwise) *)
+Theorem C02_operator_is_apply2 :
+  forall (R : Type) (rO rI : R) (radd rmul rsub : R -> R -> R) (ropp : R -> R)
+         (Rth : ring_theory rO rI radd rmul rsub ropp eq) (n q1 q2 : nat) (g : State.m4 R),
+  q1 < n -> q2 < n -> q1 <> q2 ->
+  exists op, item_operator n [Z.of_nat q1; Z.of_nat q2] = Ok op /\
+    forall psi b, length b = n ->
+      coo_apply R rO radd rmul (snd op) (entry_mat R rO (M4 R g)) psi b = apply2 R radd rmul q1 q2 g psi b.
+Proof. exact item_operator_apply2. Qed.
+Print Assumptions C02_operator_is_apply2.
+
+(* the sparse operator in closed form: for a split of the n positions into not-used and used ones, applying the COO
+   triples of create_sparse sums, over the 2^m column patterns jc of the used positions, gate[bits of b at used,
+   jc] * psi[b with jc written at the used positions] *)
+Theorem C02_sparse_sum :
+  forall (R : Type) (rO rI : R) (radd rmul rsub : R -> R -> R) (ropp : R -> R)
+         (Rth : ring_theory rO rI radd rmul rsub ropp eq) (qnu qs : list nat),
+  NoDup qnu -> NoDup qs -> (forall p, In p qnu -> ~ In p qs) ->
+  (forall p, p < length qnu + length qs -> In p qnu \/ In p qs) ->
+  (forall q, In q qnu -> q < length qnu + length qs) -> (forall q, In q qs -> q < length qnu + length qs) ->
+  0 < length qnu -> 0 < length qs ->
+  create_sparse (map Z.of_nat qs) (map Z.of_nat qnu) (map Z.of_nat qs) (length qnu + length qs) = Ok (sparse_triples qnu qs) /\
+  forall gate psi b, length b = length qnu + length qs ->
+    coo_apply R rO radd rmul (sparse_triples qnu qs) gate psi b =
+    bsum R radd (length qs) (fun jc => rmul (gate (fst (ent qs b (scat qs jc b))) (snd (ent qs b (scat qs jc b)))) (psi (scat qs jc b))).
+Proof. exact sparse_sum_full. Qed.
+Print Assumptions C02_sparse_sum.
+
 (* Non-vacuity: a concrete well-formed list over the Gaussian integers satisfies the hypotheses, and on symbolic
    matrices the model fuses it as the code does (the repaired F2 input: the qubit-2 gate stays outside). *)
 Require Import QG.Base.ZI.
@@ -118,6 +175,19 @@ Example C02_example_wf :
   let G : State.m4 ZI := fun r c => if Bool.eqb (fst r) (fst c) && Bool.eqb (snd r) (snd c) then zii else zi0 in
   Forall (wf_in ZI 3) [(M2 ZI X, [1%Z]); (M4 ZI G, [0%Z; 1%Z]); (M2 ZI X, [2%Z; (-1)%Z])].
 Proof. repeat constructor; simpl; auto; try discriminate; try (split; [reflexivity|split]; discriminate || reflexivity). Qed.
+
+(* the BinaryBackend model runs on that list (level 4 really fuses: 3 items, n = 3) and agrees with sem on every basis label *)
+Example C02_example_backend :
+  let X : State.m2 ZI := fun r c => if Bool.eqb r c then zi0 else zi1 in
+  let G : State.m4 ZI := fun r c => if Bool.eqb (fst r) (fst c) && Bool.eqb (snd r) (snd c) then zii else zi0 in
+  let items := [(M2 ZI X, [1%Z]); (M4 ZI G, [0%Z; 1%Z]); (M2 ZI X, [2%Z; (-1)%Z])] in
+  let psi : State.state ZI := fun b => match b with [false; true; false] => zi1 | [true; true; true] => zii | _ => zi0 end in
+  match bin_statevector ZI zi0 ziadd zimul (mat ZI) (mmul ZI ziadd zimul) (mkron ZI zimul) (mid2 ZI zi0 zi1) (mid4 ZI zi0 zi1)
+          (entry_mat ZI zi0) 3 items psi with
+  | Ok out => forallb (fun b => zieqb (out b) (sem ZI ziadd zimul (map (den ZI zi0 zi1) items) psi b)) (all_bits 3)
+  | Err _ => false
+  end = true.
+Proof. vm_compute. reflexivity. Qed.
 
 Example C02_example_sym :
   optimize_sym 4 3 [(Tok 0, [1%Z]); (Tok 1, [0%Z; 1%Z]); (Tok 2, [2%Z])]
